@@ -25,6 +25,9 @@ Clauses(e) ==
           <<"C02.roundtrip", e.back = e.cell>>,
           <<"C02.resolution", e.backres = e.r>>,
           <<"C02.inside", pole \/ OriginInside(e.g)>>,
+          \* discrete part of the projection round trip: the (face, triangle, reflected) the inverse projection used for
+          \* the centre is among those the forward projection used when the centre was located again
+          <<"mech.projection.sametriangle", \A i \in 1..Len(e.invkeys) : \E j \in 1..Len(e.fwdkeys) : e.fwdkeys[j] = e.invkeys[i]>>,
           <<"locate.distinct", EstDistinct(e.est)>>,
           <<"locate.onlylasthits", EstOnlyLastHits(e.est)>>,
           <<"locate.result", e.r < 2 \/ e.est = <<>> \/
